@@ -536,7 +536,7 @@ static void run_op(const std::vector<std::string> &w, const std::string &, out &
         const std::string &k = w[1];
         if (k == "poolx")
         {
-            // pool_engage with an element size / zone size it must refuse (its asserts), run in a child
+            // igris::pool(zone, size, elsize) with an element size / zone size it must refuse (asserts), run in a child
             // process: the zone is exactly sized, so an accepted bad request is a memory error there
             size_t e = strtoul(w[2].c_str(), 0, 10), size = strtoul(w[3].c_str(), 0, 10);
             int pfd[2];
@@ -556,10 +556,8 @@ static void run_op(const std::vector<std::string> &w, const std::string &, out &
                 dup2(nul, 0);
                 dup2(nul, 1);
                 exact_buf z(size);
-                pool_head h;
-                pool_init(&h);
-                pool_engage(&h, z.p, size, e);
-                fprintf(stderr, "engaged %zu\n", (size_t)pool_avail(&h));
+                igris::pool ip(z.p, size, e); // init(): assert on the element size, then pool_engage (assert on the zone size)
+                fprintf(stderr, "engaged %zu\n", ip.avail());
                 _exit(0);
             }
             close(pfd[1]);
@@ -590,7 +588,7 @@ static void run_op(const std::vector<std::string> &w, const std::string &, out &
                     for (char &ch : why)
                         if (ch == '\n' || ch == '\t' || ch == '\r') ch = ' ';
                 }
-                o.fail("pool_engage(size " + s(size) + ", elemsz " + s(e) + ") was not refused: " + why);
+                o.fail("igris::pool(zone, size " + s(size) + ", elsize " + s(e) + ") was not refused: " + why);
             }
             if (!must_refuse && !clean) o.fail("pool_engage of a valid zone failed");
             o.tag(must_refuse ? "engage-refused" : "engage-child");
